@@ -93,6 +93,13 @@ func ruleC01_1(c *Ctx, ra, rb string) {
 				}
 				ok = all && n > 0
 			}
+			if !ok {
+				// through helpers, struct results and a take-out from where a reserved socket
+				// was parked (C20.6's origin walk): generator results only
+				org := map[string]bool{}
+				w.relaySocketOrigins(st.Val, 0, map[ssa.Value]bool{}, org)
+				ok = len(org) == 1 && org["generator"]
+			}
 		}
 		if ok {
 			c.OK(ra, fname(st.Parent()), "relayPacketConn=", w.instrPos(st), "assigned from result #0 of the Manager.allocatePacketConn generator")
@@ -817,6 +824,10 @@ func ruleInstalledAddrFresh(c *Ctx, rule string) {
 				continue
 			}
 			ip := lit.fields["IP"]
+			if w.freshBytes(ip, 0) {
+				c.OK(rule, fname(fn), target.Name()+" address", w.instrPos(cs), "the installed IP is a private copy of the decoded bytes")
+				continue
+			}
 			base, _, ok := fieldLoadAddrOfLoad(ip)
 			if !ok {
 				c.Undecided(rule, fname(fn), target.Name()+" address", w.instrPos(cs), "cannot identify the storage the installed IP is read from: "+w.key(ip))
@@ -982,6 +993,14 @@ func ruleListenerOwnManager(c *Ctx, rule string) {
 					return
 				}
 			}
+			if ia, isIA := amv.(*ssa.IndexAddr); isIA && (mc == nil || mc.Call.StaticCallee() != mk) {
+				// managers created up front into a local slice parallel to the configurations:
+				// managers[i] = create(cfgs[i]…) for every i, used as (cfgs[i], managers[i])
+				if ok, why := w.parallelManagers(ia, connRoot, mk, root); ok {
+					c.OK(rule, fname(fn), "manager", w.instrPos(in), why)
+					return
+				}
+			}
 			if mc == nil || mc.Call.StaticCallee() != mk || idx > 0 {
 				c.Bad(rule, fname(fn), "manager", w.instrPos(in), "the allocation manager this listener's loop runs on is "+w.desc(amv)+", not the result of createAllocationManager for this listener's configuration: the listener's own PermissionHandler may never be consulted, so a peer it refuses is installed all the same")
 				return
@@ -1142,4 +1161,70 @@ func fieldLoadAny(w *World, v ssa.Value) (holder ssa.Value, f *types.Var, ok boo
 		}
 	}
 	return nil, nil, false
+}
+
+// parallelManagers: use is &S[i] of a function-local slice S, and the connection read by the
+// loop is an element &C[i] at the SAME index value; every store into S is S[j] = manager
+// created from fields of C[j] (same j, same configuration slice C). Then S[i] is the manager of
+// configuration C[i].
+func (w *World) parallelManagers(use *ssa.IndexAddr, connRoot ssa.Value, mk *ssa.Function,
+	root func(ssa.Value, *ssa.Go, int) (ssa.Value, string)) (bool, string) {
+	cia, ok := connRoot.(*ssa.IndexAddr)
+	if !ok || cia.Index != use.Index {
+		return false, ""
+	}
+	sliceOf := func(v ssa.Value) ssa.Value { return stripIface(w.resolveLoad(v)) }
+	S, isMS := sliceOf(use.X).(*ssa.MakeSlice)
+	if !isMS || S.Parent() != use.Parent() && false {
+		return false, ""
+	}
+	nStores := 0
+	good := true
+	fn := S.Parent()
+	w.eachInstr(fn, func(in ssa.Instruction) {
+		st, ok := in.(*ssa.Store)
+		if !ok {
+			return
+		}
+		ia, ok := st.Addr.(*ssa.IndexAddr)
+		if !ok || sliceOf(ia.X) != ssa.Value(S) {
+			return
+		}
+		nStores++
+		v, _ := root(st.Val, nil, 0)
+		cc, idx := callOf(w.resolveLoad(v))
+		if cc == nil || cc.Call.StaticCallee() != mk || idx > 0 {
+			good = false
+			return
+		}
+		for _, a := range cc.Call.Args[1:] {
+			r, f := root(a, nil, 0)
+			ra, isIA := r.(*ssa.IndexAddr)
+			if f == "" || !isIA || ra.Index != ia.Index || !(sliceOf(ra.X) == sliceOf(cia.X) || w.sameKey(ra.X, cia.X)) {
+				good = false
+			}
+		}
+	})
+	// the slice itself goes nowhere else
+	if S.Referrers() != nil {
+		for _, r := range *S.Referrers() {
+			switch x := r.(type) {
+			case *ssa.IndexAddr, *ssa.DebugRef:
+			case *ssa.Store:
+				if al, isAl := x.Addr.(*ssa.Alloc); !isAl || x.Val != ssa.Value(S) || w.escapes(al) {
+					good = false
+				}
+			case *ssa.Call:
+				if b, isB := x.Call.Value.(*ssa.Builtin); !isB || (b.Name() != "len" && b.Name() != "cap") {
+					good = false
+				}
+			default:
+				good = false
+			}
+		}
+	}
+	if nStores == 0 || !good {
+		return false, ""
+	}
+	return true, fmt.Sprintf("managers are created up front into a local slice parallel to the configurations (element j from configuration j, %d store(s)); the loop for configuration i runs on element i", nStores)
 }
